@@ -149,10 +149,13 @@ def _resolve_worker(args):
 
 def second_pass(recs, thash, tier):
     todo = []
+    from .driver import known_open_keys
+    known = known_open_keys()
     for r in recs:
         if r.get("status") != "ok" or r.get("second_pass"):
             continue
-        names = [o["name"] for o in r["obligations"] if o["verdict"] == "unknown" and "hard limit" not in o.get("backend", "")]
+        names = [o["name"] for o in r["obligations"] if o["verdict"] == "unknown" and "hard limit" not in o.get("backend", "")
+                 and o["name"].rsplit("/", 1)[0] not in known]
         if names and len(names) <= 40:
             todo.append((r["function"], set(names), thash, tier))
     if not todo or os.environ.get("PYVC_NO_SECOND_PASS"):
